@@ -57,7 +57,12 @@ def classify_stderr(text):
     # a report whose innermost source-level frame is harness code is a harness bug, not a finding
     fr = re.findall(r"#\d+ 0x[0-9a-f]+ in [^\n]*? (/[^\s:]+):\d+", text)
     fr = [p for p in fr if p.startswith("/repo/") or p.startswith("/verif/") or "/kernel/" in p or "/valget/" in p]
-    if fr and fr[0].startswith("/verif/"):
+    # (the first stack of the report only: up to the first blank line after frame #0)
+    first_stack = text[text.find("#0 "):] if "#0 " in text else text
+    first_stack = first_stack.split("\n\n")[0]
+    fr1 = re.findall(r"#\d+ 0x[0-9a-f]+ in [^\n]*? (/[^\s:]+):\d+", first_stack)
+    product_on_stack = any(p.startswith("/repo/") or "/kernel/" in p or "/valget/" in p or p.endswith("/main.cpp") for p in fr1)
+    if fr and fr[0].startswith("/verif/") and not product_on_stack:
         return "harness-bug@" + fr[0]
     m = re.search(r"ERROR: AddressSanitizer: ([A-Za-z0-9_-]+)", text)
     frame = ""
